@@ -85,7 +85,7 @@ def run(t, budget=1.0):
         "per compiler configuration) from each of the 31 states {a,b}^0..4. "
         "(3) random: rapidcheck tape -> abstract commands resolved against the current model size (positions begin/end/middle/"
         "random, counts 0/1/fill/fill-1/random, ranges empty/to-end/random), capacities 0..40, 250..261 (uint8 length limit "
-        "254/255) and 65530..65539 (uint16 limit), arbitrary element bytes, up to 250 commands. "
+        "254/255) and 65530..65539 (uint16 limit), arbitrary element bytes, up to 250 commands (40 on the 64 KiB buffers; element-wise input-iterator inserts capped at 300 elements). "
         "non-trivial = sequence that executed >=2 different mutator overloads and used a boundary position (begin or end) "
         "in a position-taking command; distinct by (type configuration, initial state, concrete command text); enumerated "
         "sequences are distinct by construction and counted, random ones are hashed. "
